@@ -2519,7 +2519,7 @@ func (c *streamableClientConn) handleSSE(ctx context.Context, requestSummary str
 	retriesWithoutProgress := 0
 
 	for {
-		lastEventID, reconnectDelay, clientClosed := c.processStream(ctx, requestSummary, resp, forCall)
+		lastEventID, reconnectDelay, clientClosed := c.processResumedStream(ctx, requestSummary, resp, forCall, prevLastEventID)
 
 		// If the connection was closed by the client, we're done.
 		if clientClosed {
@@ -2625,6 +2625,16 @@ func (c *streamableClientConn) checkResponse(ctx context.Context, requestSummary
 // indicating if the connection was closed by the client. If resp is nil, it
 // returns "", false.
 func (c *streamableClientConn) processStream(ctx context.Context, requestSummary string, resp *http.Response, forCall *jsonrpc.Request) (lastEventID string, reconnectDelay time.Duration, clientClosed bool) {
+	return c.processResumedStream(ctx, requestSummary, resp, forCall, "")
+}
+
+// processResumedStream is [streamableClientConn.processStream] for a response
+// body that continues a logical stream: resumedFrom is the ID of the last
+// event received on the previous bodies of that stream, if any. A body that is
+// interrupted before it delivers a complete event must not lose that
+// resumption point.
+func (c *streamableClientConn) processResumedStream(ctx context.Context, requestSummary string, resp *http.Response, forCall *jsonrpc.Request, resumedFrom string) (lastEventID string, reconnectDelay time.Duration, clientClosed bool) {
+	lastEventID = resumedFrom
 	defer func() {
 		// Drain any remaining unprocessed body. This allows the connection to be re-used after closing.
 		io.Copy(io.Discard, resp.Body)
